@@ -16,3 +16,19 @@ def set_shard(d):
 
 def sh(key, default=None):
     return SHARD.get(key, default)
+
+
+class PropertyViolated(AssertionError):
+    """raised by a harness when its oracle fails, so that the reason travels in CrossHair's message"""
+
+
+def verdict(res):
+    ok, why = res[0], res[1]
+    if not ok:
+        raise PropertyViolated(why)
+    return True
+
+
+def reached(res):
+    """reach twin: post-condition False exactly when the scenario ran to the end of its oracle with a passing verdict"""
+    return not res[0]
